@@ -1096,7 +1096,8 @@ def run_widecov(facts, run, prop, type_filter=None):
 
 def run_slicehead(facts, run, prop, type_filter=None):
     """For a slice parameter whose every element access in the function has a statically bounded index (constants, Range
-    loop variables) and that is not handed to anything but `len()` / `is_empty()`: if the smallest index ever accessed is
+    loop variables, at least one of them ranging over several indices) and that is not handed to anything but `len()` /
+    `is_empty()`: if the smallest index ever accessed is
     a > 0, the first a elements are never looked at -- `for j in 1..v.len() { acc += v[j] * z }` without the constant
     term `v[0]`.  The number of slice parameters examined is the anchor (no such function exists on the reviewed tree)."""
     from .absint import FnEval, INF
@@ -1125,7 +1126,7 @@ def run_slicehead(facts, run, prop, type_filter=None):
                         al[l] = al[rv[2][0]]
                     elif rv[0] == "use" and rv[1][0] in ("cp", "mv") and len(rv[1][1]) == 1 and rv[1][1][0] in al:
                         al[l] = al[rv[1][1][0]]
-        mins, unknown, whole, line = {}, set(), set(), {}
+        mins, unknown, whole, line, ranged = {}, set(), set(), {}, set()
 
         def visit(pl, bi, ln):
             if pl[0] in al and len(pl) >= 3 and pl[1] == "*" and pl[2] != "*" and pl[2][0] == "i":
@@ -1134,6 +1135,8 @@ def run_slicehead(facts, run, prop, type_filter=None):
                 if iv is None:
                     unknown.add(p)
                 else:
+                    if iv[1] > iv[0]:
+                        ranged.add(p)       # a loop over a range of indices, not a single fixed element
                     if iv[0] < mins.get(p, INF):
                         mins[p] = iv[0]
                         line[p] = ln
@@ -1167,8 +1170,8 @@ def run_slicehead(facts, run, prop, type_filter=None):
                     if o[0] in ("cp", "mv") and len(o[1]) == 1 and o[1][0] in al:
                         whole.add(al[o[1][0]])
         for p, m in sorted(mins.items()):
-            if p in unknown or p in whole or m == INF:
-                continue
+            if p in unknown or p in whole or m == INF or p not in ranged:
+                continue          # only loops over an index range say "all elements from a on"; `sig[113]` alone does not
             n += 1
             ok = m <= 0
             run.oblige(ok=ok)
